@@ -2,7 +2,7 @@
 
 from __future__ import annotations
 
-from .. import gen, oracles as O, rig
+from .. import gen, oracles as O, rig, tconc
 from ..view import TERMINALS, View
 from . import common
 
@@ -82,6 +82,8 @@ def work(ctx, tier):
                 ctx.viol("log-metric-count-differs", f"[{e}] max_attempts=0: metric {[m[1] for m in mets]} vs log {[l[1] for l in logs]}", common.payload(sc, e, 0))
             elif tl and (val.timeline is None or [t.event for t in val.timeline.events] != [mets[0][1]]):
                 ctx.viol("timeline-count-differs", f"[{e}] max_attempts=0: timeline {val.timeline} vs metric {[m[1] for m in mets]}", common.payload(sc, e, 0))
+    # each call's own stream when whole calls race in threads on a shared budget / breaker / policy object
+    tconc.thread_slice(ctx, tier, common.rng_for(ctx, "threads"), ["events"], budget=True, breaker=True)
     if tier != "quick":
         common.repo_suite_under_monitors(ctx, "events")
     common.flush_stats(ctx, stats)
@@ -96,11 +98,12 @@ def conclude(ctx):
     floors["breaker_events_checked"] = (ctx.cnt["breaker_events_checked"], 500)
     floors["retry_events"] = (ctx.cnt["retry_events"], 3000)
     floors["scenarios_with_raising_metric_hook"] = (ctx.cnt["scenarios_with_raising_metric_hook"], 100)
+    floors.update(tconc.floors(ctx))
     return dict(
         rule=(
             "sweep + random scenarios (all stop reasons, causes, abort points, handler decisions, timelines as bool/object) over 20 entry points + policy-level breaker histories "
             "(3-8 calls, small thresholds, gaps around the recovery timeout); per run the metric stream is parsed by the grammar retry* terminal, compared field-by-field with the log stream "
-            "and the timeline, breaker events are matched against the spied transitions; non-trivial = run with a terminal event; distinct = distinct (config, script, abort index, handler, entry)"
+            "and the timeline, breaker events are matched against the spied transitions; non-trivial = run with a terminal event; distinct = distinct (config, script, abort index, handler, entry)" + tconc.RULE
         ),
         evaluations=ctx.cnt["calls"],
         nontrivial=len(ctx.sets["nontrivial"]),
